@@ -78,8 +78,8 @@ def run(chk):
         chk.check(_pred_ok(iff.test), "R6", f"{B}:{f.qualname} | bit-level path for every field that is not whole bytes at a byte boundary", f.loc(iff),
                   f"`{src(iff.test)}` sends a sub-byte field that starts on a byte boundary (or a shifted whole-byte field) down the byte-aligned path: a whole byte is "
                   f"read/written and the neighbouring fields in that byte are overwritten")
-    wit = must_pass(fs.cfg, lambda n: node_calls(n, "self.pdo_parent.update"))
-    chk.check(wit is None, "R6", f"{B}:PdoVariable.set_data | ends in pdo_parent.update()", s.loc(), f"{path_text(wit) if wit else ''}")
+    from . import shared
+    shared.setdata_updates_task(chk, "R6")
 
     # aligned path
     ga = [n for n in gi.orelse if isinstance(n, ast.Assign)]
